@@ -861,11 +861,20 @@ func c05bWriter(c *Ctx, r *Report) {
 			if builtinName(info, x) == "copy" && len(x.Args) == 2 {
 				if se, ok := x.Args[1].(*ast.SliceExpr); ok && se.Low == nil && se.High != nil {
 					if pc.path(se.High) == "(NT + 1)" || pc.path(se.High) == "(1 + NT)" {
-						// the destination must have exactly that many cells: make([]int, NT+1)
+						// the destination must have exactly that many cells: make([]int, NT+1) — a local defined that
+						// way, or a slot (A[i]) assigned that way by the statement just before the copy
 						if d := identObj(info, x.Args[0]); d != nil && defs.count[d] == 1 {
 							if mk, ok := unparen(defs.single[d]).(*ast.CallExpr); ok && builtinName(info, mk) == "make" && len(mk.Args) >= 2 {
 								if normAffine(pc.path(mk.Args[1])) == normAffine(pc.path(se.High)) {
 									actionWidthOK = true
+								}
+							}
+						} else if prev := stmtBefore(f.Decl.Body, x); prev != nil {
+							if as, ok := prev.(*ast.AssignStmt); ok && as.Tok == token.ASSIGN && len(as.Lhs) == 1 && len(as.Rhs) == 1 && exprString(unparen(as.Lhs[0])) == exprString(unparen(x.Args[0])) {
+								if mk, ok := unparen(as.Rhs[0]).(*ast.CallExpr); ok && builtinName(info, mk) == "make" && len(mk.Args) >= 2 {
+									if normAffine(pc.path(mk.Args[1])) == normAffine(pc.path(se.High)) {
+										actionWidthOK = true
+									}
 								}
 							}
 						}
@@ -933,7 +942,7 @@ func c05bWriter(c *Ctx, r *Report) {
 		if why == "" {
 			why = "no loop over all rows of the dense table that appends an action row"
 			for _, s := range f.Decl.Body.List {
-				full, body, _ := fullRangeLoop(info, s)
+				full, body, iv := fullRangeLoop(info, s)
 				if full == nil || !isTab(full) || !noSkips(body) {
 					continue
 				}
@@ -941,6 +950,16 @@ func c05bWriter(c *Ctx, r *Report) {
 					if as, ok := bs.(*ast.AssignStmt); ok && len(as.Lhs) == 1 && len(as.Rhs) == 1 {
 						if call, ok := as.Rhs[0].(*ast.CallExpr); ok && builtinName(info, call) == "append" && len(call.Args) == 2 && exprString(call.Args[0]) == exprString(as.Lhs[0]) {
 							why = ""
+						}
+						// or: A[i] = <row> with A := make([][]int, len(tab)) and i the loop's index
+						if ix, ok := unparen(as.Lhs[0]).(*ast.IndexExpr); ok && as.Tok == token.ASSIGN && iv != nil && identObj(info, ix.Index) == iv {
+							if a := identObj(info, ix.X); a != nil && cf.defs.count[a] == 1 {
+								if mk, ok := unparen(cf.defs.single[a]).(*ast.CallExpr); ok && builtinName(info, mk) == "make" && len(mk.Args) == 2 {
+									if lc, ok := unparen(mk.Args[1]).(*ast.CallExpr); ok && builtinName(info, lc) == "len" && len(lc.Args) == 1 && isTab(lc.Args[0]) {
+										why = ""
+									}
+								}
+							}
 						}
 					}
 				}
@@ -1702,4 +1721,33 @@ func c05Staged(c *Ctx, r *Report) {
 	if n < 2 {
 		r.Undecided(clause, "R4 SIBLING-READERS", "packed skeletons", "-", fmt.Sprintf("only %d of 2 packed skeletons could be staged: %v", n, st.Errs))
 	}
+}
+
+// stmtBefore: the statement that directly precedes the statement containing n in its block (nil if none).
+func stmtBefore(root *ast.BlockStmt, n ast.Node) ast.Stmt {
+	pm := parentMap(root)
+	for cur := n; cur != nil; cur = pm[cur] {
+		st, ok := cur.(ast.Stmt)
+		if !ok {
+			continue
+		}
+		var list []ast.Stmt
+		switch p := pm[cur].(type) {
+		case *ast.BlockStmt:
+			list = p.List
+		case *ast.CaseClause:
+			list = p.Body
+		default:
+			continue
+		}
+		for i, s := range list {
+			if s == st {
+				if i == 0 {
+					return nil
+				}
+				return list[i-1]
+			}
+		}
+	}
+	return nil
 }
